@@ -19,14 +19,14 @@ mvars == <<s, created, spent, nextId>>
 
 Init ==
   /\ s = [len |-> 1, headSeq |-> 0, headTime |-> 10, headHash |-> 100, genesisHash |-> 100, uxhash |-> 0,
-          unspent |-> { [id |-> 1, coins |-> FromNat(Volume), hours |-> Zero, time |-> 10] }, pool |-> {}]
+          unspent |-> { [id |-> 1, addr |-> 1, coins |-> FromNat(Volume), hours |-> Zero, time |-> 10] }, pool |-> {}]
   /\ created = {1} /\ spent = {} /\ nextId = 2
 
 \* candidate transactions: inputs are any 1..2 ids ever created (spent or not, possibly repeated) or an unknown id
 InputLists == LET U == created \cup {99} IN { <<a>> : a \in U } \cup { <<a, b>> : a \in U, b \in U }
 OutLists(total) ==
-  { <<[id |-> nextId, coins |-> FromNat(c), hours |-> Zero]>> : c \in {total, total + 1} \cup (IF total > 0 THEN {total - 1} ELSE {}) }
-  \cup { <<[id |-> nextId, coins |-> FromNat(c), hours |-> Zero], [id |-> nextId + 1, coins |-> FromNat(total - c), hours |-> Zero]>> : c \in 0..total }
+  { <<[id |-> nextId, addr |-> 1, coins |-> FromNat(c), hours |-> Zero]>> : c \in {total, total + 1} \cup (IF total > 0 THEN {total - 1} ELSE {}) }
+  \cup { <<[id |-> nextId, addr |-> 1, coins |-> FromNat(c), hours |-> Zero], [id |-> nextId + 1, addr |-> 2, coins |-> FromNat(total - c), hours |-> Zero]>> : c \in 0..total }
 InCoins(ins) == LET known == { i \in DOMAIN ins : ins[i] \in Ids(s.unspent) }
                 IN ToNat(SumSeq([i \in 1..Len(ins) |-> IF i \in known THEN Ux(s, ins[i]).coins ELSE Zero]))
 Txns == UNION { { [hash |-> 1000 + nextId, sigsOK |-> ok, ins |-> ins, outs |-> outs] :
